@@ -12,16 +12,22 @@ import numpy
 from .. import core, sched
 
 SCENARIOS = {
-    'quick': [{'what': 'function', 'pre': 'empty', 'bound': 2}, {'what': 'function', 'pre': 'truncated', 'bound': 2}, {'what': 'function', 'pre': 'complete', 'bound': 1},
+    # quick: two preemptions from the empty cache (1502 executions, split over 6 shards by first deviations), one elsewhere
+    'quick': [{'what': 'function', 'pre': 'empty', 'bound': 2, 'nsplit': 6}, {'what': 'function', 'pre': 'truncated', 'bound': 1}, {'what': 'function', 'pre': 'complete', 'bound': 1},
               {'what': 'function2keys', 'pre': 'empty', 'bound': 1}, {'what': 'recursion', 'pre': 'empty', 'bound': 1}, {'what': 'recursion', 'pre': 'partial', 'bound': 1}],
-    'thorough': [{'what': 'function', 'pre': 'empty', 'bound': 3}, {'what': 'function', 'pre': 'truncated', 'bound': 3}, {'what': 'function', 'pre': 'complete', 'bound': 2},
-                 {'what': 'function2keys', 'pre': 'empty', 'bound': 2}, {'what': 'recursion', 'pre': 'empty', 'bound': 2}, {'what': 'recursion', 'pre': 'partial', 'bound': 2},
-                 {'what': 'function3', 'pre': 'empty', 'bound': 2}],
+    'thorough': [{'what': 'function', 'pre': 'empty', 'bound': 3, 'nsplit': 16}, {'what': 'function', 'pre': 'truncated', 'bound': 3, 'nsplit': 16}, {'what': 'function', 'pre': 'complete', 'bound': 2, 'nsplit': 4},
+                 {'what': 'function2keys', 'pre': 'empty', 'bound': 2, 'nsplit': 6}, {'what': 'recursion', 'pre': 'empty', 'bound': 2, 'nsplit': 6}, {'what': 'recursion', 'pre': 'partial', 'bound': 2, 'nsplit': 6},
+                 {'what': 'function3', 'pre': 'empty', 'bound': 2, 'nsplit': 8}],
 }
 
 
 def shards(tier):
-    return [dict(s, part='c') for s in SCENARIOS[tier]]
+    out = []
+    for s in SCENARIOS[tier]:
+        n = s.get('nsplit', 1)
+        for k in range(n):
+            out.append(dict({x: v for x, v in s.items() if x != 'nsplit'}, part='c', split=[k, n]))
+    return out
 
 
 def _match(code):
@@ -149,7 +155,7 @@ def judge(scn, ex, args):
     return None
 
 
-def run_scenario(scn, res, only_prefix=None):
+def run_scenario(scn, res, only_prefix=None, split=None):
     nworkers = 3 if scn['what'] == 'function3' else 2
     args = [5, 7] if scn['what'] == 'function2keys' else [5] * nworkers
     bodies = [_body(scn, a) for a in args]
@@ -180,13 +186,14 @@ def run_scenario(scn, res, only_prefix=None):
                           {'part': 'c', 'scenario': scn, 'choices': ex.choices})
             state['fail'] = f
             return False
-    n = sched.explore(run_one, scn['bound'], on_execution)
+    n = sched.explore(run_one, scn['bound'], on_execution, part=tuple(split) if split and split[1] > 1 else None, split_depth=min(2, scn['bound']),
+                      symmetric=len(set(args)) == 1)   # identical callers: which one moves first is a renaming
     return n
 
 
 def run_shard(spec, tier, res):
-    scn = {k: v for k, v in spec.items() if k != 'part'}
-    n = run_scenario(scn, res)
+    scn = {k: v for k, v in spec.items() if k not in ('part', 'split')}
+    n = run_scenario(scn, res, split=spec.get('split'))
     res.sample({'part': 'c', 'scenario': scn, 'executions': n})
 
 
